@@ -503,6 +503,7 @@ def gen_case(rng, thorough=False, force=None):
         b["type"] == "internal" for b in basins)
     case = dict(seed=rng.randint(0, 10 ** 9), n=n, feats=feats, junk=junk,
                 scen=scen, dup_basin_feat=dup, featureless=featureless,
+                empty_nonscalar=(n == 0 and rng.random() < 0.7),
                 drop_stats=drop_stats, extra=extra, logs=logs, tables=tables,
                 basins=basins, soft=soft, task=task, opts=opts)
     case.update(force)
@@ -702,7 +703,7 @@ def build_input(case, d, tag="in"):
                 if f["kind"] in ("scalar", "uint"):
                     kw = layout_kwargs(f["layout"], (0,))
                     ev.create_dataset(f["name"], shape=(0,), dtype=float, **kw)
-            if rng.random() < 0.5:
+            if case.get("empty_nonscalar", rng.random() < 0.5):
                 # empty non-scalar features
                 ev.create_dataset("image", shape=(0, 6, 9), dtype="u1",
                                   **layout_kwargs(rng.choice(
@@ -1015,20 +1016,6 @@ def soft_ids(value, names):
     return [1 if x == cur else names.get("seg", x) for x in soft_chain(value)]
 
 
-def soft_strip(value, version, ref_value=None):
-    """RTDCWriter appends its own version to the software version of the
-    files it touches (compress, condense): undo that"""
-    if isinstance(value, bytes):
-        value = value.decode("utf-8")
-    if isinstance(ref_value, bytes):
-        ref_value = ref_value.decode("utf-8")
-    suffix = " | dclab %s" % version
-    if isinstance(value, str) and isinstance(ref_value, str) and \
-            value == ref_value + suffix:
-        return ref_value
-    return value
-
-
 def unprefix(name, prefix):
     """rtdc_copy(meta_prefix=...) renames the logs (the docstring also says
     the tables, the code does not): names are compared modulo the prefix"""
@@ -1335,8 +1322,14 @@ def compare_content(case, path_in, path_out, second=False):
                 return "metadata %s lost" % k
             a, b = hi.attrs[k], ho.attrs[k]
             if k == "setup:software version":
-                a = soft_expected(a, task)
                 b = b.decode() if isinstance(b, bytes) else b
+                rewritten = set(ho.get("basins", {})) - set(hi.get("basins", {}))
+                if rewritten and b == soft_expected(a, "compress"):
+                    # a rewritten internal basin definition goes through
+                    # RTDCWriter, which brands the destination
+                    a = b
+                else:
+                    a = soft_expected(a, task)
             if attr_value_key(a) != attr_value_key(b):
                 return "metadata %s: %r -> %r" % (k, a, b)
         for k in ho.attrs:
@@ -1862,6 +1855,13 @@ def judge(case, d, path_in):
             "-empty" if dd["shape"][0] == 0 else ""))
     if case.get("scen") is not None:
         res["counts"].append("defect-scenario")
+        sv = case["soft"]
+        if sv.count("|") >= 2:
+            res["counts"].append("defect:three-stage-pipeline")
+        if re.search(r"(rc|post|dev)\d", sv):
+            res["counts"].append("defect:pre/post/dev-version")
+        if case["scen"].get("acq"):
+            res["counts"].append("defect:shapein-acquisition-log")
         with h5py.File(path_in, "r") as hx:
             for x in sorted(ref_defective(hx)):
                 res["counts"].append("defective-in-input:" + x)
@@ -2151,6 +2151,7 @@ def tdms_check(run):
         zips = [z for z in zips if "minimal" in z or "2fl-no-image" in z
                 or "fl-image_2016" in z]
     model_cases, model_want = [], []
+    pending = []
     for z in zips:
         d = os.path.join(run.scratch, "tdms-" + os.path.basename(z)[:-4])
         os.makedirs(d, exist_ok=True)
@@ -2160,9 +2161,13 @@ def tdms_check(run):
                                 recursive=True))
         tdms = [t for t in tdms if not t.endswith("_traces.tdms")]
         variants = [(True, True, False), (False, False, False)]
-        if "minimal" in z or run.thorough:
+        if "minimal" in z or "2fl-no-image" in z or run.thorough:
             variants.append((True, True, True))
         for t in tdms:
+            if "minimal" in z or "2fl-no-image" in z or run.thorough:
+                for sa, sb in ((True, True), (False, False)):
+                    if run.thorough or sa == ("minimal" in z):
+                        tdms_condense(run, t, d, sa, sb, pending)
             for skip_i, skip_f, compute in variants:
                 case = dict(kind="tdms2rtdc", fixture=os.path.basename(z),
                             file=os.path.basename(t), skip_initial=skip_i,
@@ -2184,6 +2189,7 @@ def tdms_check(run):
                                        classify(case, fail))
                 if os.path.exists(out):
                     os.unlink(out)
+    tdms_condense_compare(run, pending)
     # the event selection of the real skip_empty_image_events vs the model
     if model_cases:
         got = common.coq_map(run.scratch, "c08t", HEADER, "run_tdms",
@@ -2195,6 +2201,121 @@ def tdms_check(run):
             if m != w:
                 run.mismatch(dict(kind="tdms-selection", n=n, flags=fl), m, w,
                              what="skip_empty_image_events")
+
+
+def tdms_condense(run, t, d, sa, sb, pending):
+    """cli.condense on a .tdms file: every scalar feature the tdms reader
+    offers (stored; computed if asked) must be in the output with the same
+    values; correspondence with Model.condense (is_hdf5 = false)"""
+    import contextlib
+    import io
+    import numpy as np
+    import h5py
+    import dclab
+    from dclab import cli
+    from dclab.definitions import feature_exists, scalar_feature_exists
+    out = os.path.join(d, "condensed.rtdc")
+    if os.path.exists(out):
+        os.unlink(out)
+    case = dict(kind="tdms-condense", file=os.path.basename(t),
+                store_ancillary_features=sa, store_basin_features=sb)
+    sha0 = sha256(t)
+    with dclab.new_dataset(t) as ds:
+        sc = list(ds.features_scalar)
+        loaded, basin = list(ds.features_loaded), list(ds.features_basin)
+        anc, innate = list(ds.features_ancillary), list(ds.features_innate)
+        want = [f for f in sc if f in loaded or f in innate
+                or (sa and f in anc)]
+        vals = {f: np.array(ds[f][:]) for f in want}
+    fail = None
+    try:
+        with contextlib.redirect_stdout(io.StringIO()):
+            cli.condense(path_in=t, path_out=out,
+                         store_ancillary_features=sa,
+                         store_basin_features=sb)
+    except Exception as e:
+        fail = "condense of a .tdms file raised %r" % (e,)
+    if sha256(t) != sha0:
+        fail = "tdms input modified (%s)" % fail
+    run.record_case(case, True, sample=False)
+    run.count("tdms-condense")
+    if fail is None:
+        with h5py.File(out, "r") as ho:
+            for f in want:
+                if f not in ho["events"]:
+                    fail = "scalar feature %s missing" % f
+                    break
+                a = np.asarray(vals[f], dtype=float)
+                b = np.asarray(ho["events"][f][()], dtype=float)
+                if re.match("^fl[123]_max$", f):
+                    a = np.where(a < 0, 0, a)    # finding C08-tdms-negative-flmax
+                if a.shape != b.shape or not np.array_equal(a, b,
+                                                            equal_nan=True):
+                    fail = "scalar feature %s differs" % f
+                    break
+            for f in ho["events"]:
+                if not scalar_feature_exists(f):
+                    fail = "non-scalar feature %s in the condensed file" % f
+            if fail is None and soft_chain(ho.attrs.get(
+                    "setup:software version", "")) != [
+                    "dclab %s" % dclab.__version__]:
+                fail = "software version %r" % (
+                    ho.attrs.get("setup:software version"),)
+    if fail:
+        run.oracle_failure(case, "tdms condense: " + fail,
+                           classify(case, fail))
+        return
+    # ---- correspondence: the abstract input of a .tdms file is empty
+    names = Names()
+    for f in loaded + basin + anc + sc:
+        names.get("feat", f)
+    tbl = []
+    for name, fid in names.tabs["feat"].items():
+        b = (1 if feature_exists(name) else 0) | \
+            (2 if scalar_feature_exists(name) else 0) | \
+            (16 if name in sc else 0)
+        tbl.append((fid, b))
+    fout = observe(out, names, is_output=True, task="condense",
+                   stored=set(names.tabs["feat"]))
+    with h5py.File(out, "r") as ho:
+        warned = "dclab-condense-warnings" in ho.get("logs", {})
+    fid = lambda x: names.get("feat", x)   # noqa: E731
+    dsval = [(fid(f), elems_of(v)) for f, v in vals.items()]
+    rendered = "(mkCase %s %s %s %d %s %d %s %s %s %s %s %s)" % (
+        "(mkFacts false false None None false None false false false false "
+        "false)", "[]", coq_pairs(tbl), 2,
+        common.blist([sa, sb, warned, False]), 0, "[]",
+        common.zlist([fid(x) for x in loaded]),
+        common.zlist([fid(x) for x in basin]),
+        common.zlist([fid(x) for x in anc]),
+        "[" + "; ".join("(%s, [%s])" % (common.zlit(k), "; ".join(
+            common.zlist(e) for e in v)) for k, v in dsval) + "]",
+        "empty_file")
+    pending.append((case, rendered, rows_of(fout) + [[9, 0]],
+                    dict(names.tabs["feat"])))
+
+
+def tdms_condense_compare(run, pending):
+    if not pending:
+        return
+    models = common.coq_map(run.scratch, "c08tc", HEADER, "run_case",
+                            [p_[1] for p_ in pending], shard=1)
+    for (case, _, impl, feat), model in zip(pending, models):
+        # (the writer's own metadata, e.g. the event count, are not modelled)
+        m = [r for r in canon_model_rows(model, content_only=True)
+             if r[0] != 0]
+        i = [r for r in canon_model_rows(impl, content_only=True)
+             if r[0] != 0]
+        run.corr_checked += 1
+        if m != i:
+            bad = [a[1] for a, b in zip(m, i) if a != b]
+            diff = [(a[:30], b[:30]) for a, b in zip(m, i) if a != b][:2]
+            # negative fl?_max are clamped by the writer (known finding)
+            if len(m) != len(i) or not all(
+                    re.match("^fl[123]_max$", k) for k, v in feat.items()
+                    if v in bad):
+                run.mismatch(case, dict(rows=len(m), first=diff),
+                             dict(rows=len(i)), what="condense(.tdms)")
 
 
 def tdms_one(t, out, skip_i, skip_f, compute, model_cases, model_want):
@@ -2312,6 +2433,41 @@ def tdms_one(t, out, skip_i, skip_f, compute, model_cases, model_want):
 
 
 # --------------------------------------------------------------------------
+class RunProxy:
+    """records what a check does to the Run object so that the check can run
+    in a child process next to the main pool; replayed by the parent"""
+
+    def __init__(self, run):
+        self.scratch = os.path.join(run.scratch, "side")
+        os.makedirs(self.scratch, exist_ok=True)
+        self.thorough = run.thorough
+        self.rng = random.Random(run.rng.random())
+        self.calls = []
+        self.corr_checked = 0
+        self.notes = []
+
+    def record_case(self, *a, **k):
+        self.calls.append(("record_case", a, k))
+
+    def count(self, *a, **k):
+        self.calls.append(("count", a, k))
+
+    def oracle_failure(self, *a, **k):
+        self.calls.append(("oracle_failure", a, k))
+
+    def mismatch(self, *a, **k):
+        self.calls.append(("mismatch", a, k))
+
+
+def side_checks(proxy, queue):
+    try:
+        tdms_check(proxy)
+    except Exception as e:
+        proxy.calls.append(("broken", ("tdms_check(C08)",
+                                       "crashed: %r" % (e,)), {}))
+    queue.put((proxy.calls, proxy.corr_checked, proxy.notes))
+
+
 def load_corpus():
     d = os.path.join(common.VERIF, "corpus", PROP)
     cases = []
@@ -2332,6 +2488,9 @@ def run(run):
         cases.append(gen_case(run.rng, run.thorough))
     jobs = [(c, run.scratch, i) for i, c in enumerate(cases)]
     ctx = multiprocessing.get_context("fork")
+    side_q = ctx.Queue()
+    side = ctx.Process(target=side_checks, args=(RunProxy(run), side_q))
+    side.start()
     with ctx.Pool(min(common.NCPU, 12)) as pool:
         results = pool.map(eval_case, jobs, chunksize=4)
     import time
@@ -2383,7 +2542,30 @@ def run(run):
     h5ds_check(run, 400 if run.thorough else 40)
     uint32_check(run)
     skip_check(run, 300 if run.thorough else 40)
-    tdms_check(run)
+    import queue as _queue
+    res = None
+    while res is None:
+        try:
+            res = side_q.get(timeout=5)
+        except _queue.Empty:
+            if not side.is_alive():
+                break
+    if res is None:
+        # the side process died without an answer: do it here
+        run.notes.append("side process for the tdms checks died "
+                         "(exit code %r); repeated in-process" % side.exitcode)
+        proxy = RunProxy(run)
+        tdms_check(proxy)
+        res = (proxy.calls, proxy.corr_checked, proxy.notes)
+    side.join(timeout=10)
+    calls, nchecked, notes = res
+    run.corr_checked += nchecked
+    run.notes.extend(notes)
+    for name, a, k in calls:
+        if name == "broken":
+            run.broken.append(tuple(a))
+        else:
+            getattr(run, name)(*a, **k)
     run.notes.append("seconds since start: tasks+oracle %.0f, model %.0f, "
                      "chunks+tdms %.0f" % (t_impl, t_model,
                                            time.time() - run.t0))
